@@ -1127,7 +1127,12 @@ class Function(Ring):
         return Function.pushforward(algopy.sign, [self])
 
     def sum(self, axis=None, dtype=None, out=None):
-        return Function.pushforward(algopy.sum, [self, axis, dtype, out])
+        if out is not None:
+            raise NotImplementedError('not implemented yet')
+        # axis and dtype are recorded as keyword arguments: the pullback is
+        # called as pb_sum(ybar, x, y, out=..., axis=..., dtype=...)
+        return Function.pushforward(algopy.sum, [self],
+                                    Fkwargs={'axis':axis, 'dtype':dtype})
 
     def prod(self):
         return Function.pushforward(algopy.prod, [self])
